@@ -243,7 +243,11 @@ func checkC29(h *hx.H, c layCase) {
 			}
 			if s.Icon != nil && s.IconPosition != "" {
 				ipos := label.FromString(s.IconPosition)
-				if ipos.IsOutside() {
+				if ipos.IsOutside() && (s.Width < 12 || s.Height < 12) {
+					// a shape of a few pixels (explicit width/height of 1 or 2): the icon size derived
+					// from its inner box degenerates, where the renderer draws it is not reconstructed here
+					h.Label("gray:outside-icon-on-tiny-shape")
+				} else if ipos.IsOutside() {
 					rich = true
 					size := float64(d2target.GetIconSize(sh.GetInnerBox(), s.IconPosition))
 					p := ipos.GetPointOnBox(sh.GetBox(), label.PADDING, size, size)
